@@ -20,6 +20,7 @@ func checkC07(c *Ctx) {
 	c07Dynblock(c)
 	c07BlockSelection(c)
 	c07ScopePushPop(c)
+	c07VarsEntry(c)
 	c.NotCovered("that a reported traversal has the right steps; equality of diagnostics under a pruned scope")
 	c.NotCovered("hand-built ASTs whose ObjectConsKeyExpr literal-key condition differs between Value and walkChildNodes")
 }
@@ -1564,4 +1565,64 @@ func iteratorPolarity(cond ssa.Value, d int) int {
 		return pol
 	}
 	return 0
+}
+
+
+// R9 vars.entry: hcldec.Variables asks the spec itself and every same-body child, whatever the
+// body holds: variables can come from the spec (ExprSpec, defaults) as well as from the body.
+func c07VarsEntry(c *Ctx) {
+	c.Rule("R9 vars.entry: every return of hcldec.Variables is dominated by the test whether the root spec needs variables (type assertion to the interface that has variablesNeeded) and by the call spec.visitSameBodyChildren: no shortcut on the shape of the body's content skips specs whose expressions live in the spec (ExprSpec, DefaultSpec fallbacks)")
+	fn := c.P.LookupFunc("hcldec", "Variables")
+	if fn == nil || len(fn.Params) < 2 {
+		c.CheckerFail("vars.entry", "anchor hcldec.Variables does not resolve")
+		return
+	}
+	c.Fn(FuncName(fn))
+	spec := fn.Params[1]
+	isSpec := func(v ssa.Value) bool { return v == ssa.Value(spec) || isSpillOf(v, spec) || (func() bool {
+		if u, ok := v.(*ssa.UnOp); ok && u.Op == token.MUL {
+			return isSpillOf(u.X, spec)
+		}
+		return false
+	})() }
+	var asserts, visits []*ssa.BasicBlock
+	for _, b := range fn.Blocks {
+		for _, ins := range b.Instrs {
+			switch x := ins.(type) {
+			case *ssa.TypeAssert:
+				if it, ok := x.AssertedType.Underlying().(*types.Interface); ok && isSpec(x.X) {
+					for i := 0; i < it.NumMethods(); i++ {
+						if it.Method(i).Name() == "variablesNeeded" {
+							asserts = append(asserts, b)
+						}
+					}
+				}
+			case *ssa.Call:
+				if x.Call.IsInvoke() && x.Call.Method.Name() == "visitSameBodyChildren" && isSpec(x.Call.Value) {
+					visits = append(visits, b)
+				}
+			}
+		}
+	}
+	dominated := func(by []*ssa.BasicBlock, b *ssa.BasicBlock) bool {
+		for _, d := range by {
+			if d == b || d.Dominates(b) {
+				return true
+			}
+		}
+		return false
+	}
+	n := 0
+	for _, b := range fn.Blocks {
+		ret, ok := b.Instrs[len(b.Instrs)-1].(*ssa.Return)
+		if !ok {
+			continue
+		}
+		n++
+		c.Check(dominated(asserts, b), "vars.entry", FuncName(fn)+":return.root", ret.Pos(), "after asking the root spec",
+			"hcldec.Variables returns on a path that has not asked the root spec for the variables it needs")
+		c.Check(dominated(visits, b), "vars.entry", FuncName(fn)+":return.children", ret.Pos(), "after visiting the same-body children",
+			"hcldec.Variables returns on a path that has not visited the spec's same-body children: variables of nested specs (ExprSpec, DefaultSpec fallbacks, object attributes) are missing from the reported set")
+	}
+	c.Floor("vars.entry returns", n, 1, "hcldec.Variables")
 }
